@@ -35,7 +35,7 @@ pub fn gen08(tier: &str, rng: &mut Rng) -> Vec<Spec> {
                    v.push(Spec::new("debounce").with("a", 7).with("thr", rng.below(12)).with("c0", 0).with("off", 0).with("on", 1).with("xs", join(&xs))) }
         }
     }
-    v
+    add_entry_points(v, rng, &["threshold", "schmitt", "debounce"], 25, |rng: &mut Rng| { let l = rng.range(1, 4); (0..l).map(|_| rng.range(0, 9).to_string()).collect::<Vec<_>>().join(",") })
 }
 pub fn exec08(s: &Spec, stats: &mut Stats) -> Outcome {
     let xs = s.i64s("xs"); let (off, on) = (s.i64("off"), s.i64("on")); let a = s.i64("a");
@@ -43,16 +43,17 @@ pub fn exec08(s: &Spec, stats: &mut Stats) -> Outcome {
     let mut ys = vec![]; let mut panic = false;
     let (k, b, thr, c0, fin): (u8, i64, u64, u64, u64);
     match s.kind.as_str() {
-        "threshold" => { let mut f = threshold::Threshold::with_config(threshold::Config { threshold: a, outputs: [off, on] });
+        "threshold" => { let mut f = enter(threshold::Threshold::with_config(threshold::Config { threshold: a, outputs: [off, on] }), stats, |f, t| { f.filter(t.parse::<i64>().unwrap()); });
             for x in &xs { match catch(|| f.filter(*x)) { Ok(y) => ys.push(y), Err(_) => { panic = true; break } } }
             k = 0; b = 0; thr = 0; c0 = 0; fin = 0; }
-        "schmitt" => { b = s.i64("b"); let mut f = schmitt::Schmitt::with_config(schmitt::Config { thresholds: [a, b], outputs: [off, on] });
+        "schmitt" => { b = s.i64("b"); let mut f = enter(schmitt::Schmitt::with_config(schmitt::Config { thresholds: [a, b], outputs: [off, on] }), stats, |f, t| { f.filter(t.parse::<i64>().unwrap()); });
             for x in &xs { match catch(|| f.filter(*x)) { Ok(y) => ys.push(y), Err(_) => { panic = true; break } } }
             k = 1; thr = 0; c0 = 0; fin = f.into_guts().1.on as u64; }
         _ => { thr = s.u64("thr"); c0 = s.u64("c0");
             if c0 > 0 { stats.bump("debounce-injected-counter"); }
             let cfg = debounce::Config { threshold: thr as usize, predicate: a, outputs: [off, on] };
-            let mut f = if xs.len() % 2 == 0 { debounce::Debounce::from_guts((cfg, debounce::State { count: c0 as usize })) }
+            let mut f = if ENTRY.with(|e| e.borrow().is_some()) { enter(debounce::Debounce::with_config(cfg), stats, |f, t| { f.filter(t.parse::<i64>().unwrap()); }) }
+                        else if xs.len() % 2 == 0 { debounce::Debounce::from_guts((cfg, debounce::State { count: c0 as usize })) }
                         else { let mut f = debounce::Debounce::with_config(cfg); unsafe { f.state_mut().count = c0 as usize; } f };
             for x in &xs { match catch(|| f.filter(*x)) { Ok(y) => ys.push(y), Err(_) => { panic = true; break } } }
             k = 2; b = 0; fin = f.into_guts().1.count as u64; }
@@ -77,18 +78,18 @@ pub fn gen09(tier: &str, rng: &mut Rng) -> Vec<Spec> {
         for _ in 0..(if t { 1500 } else { 200 }) { let len = rng.range(3, 80) as usize; let hi = if kind == "peaks_slopes" { 2 } else { rng.range(2, 9) };
             let xs: Vec<String> = (0..len).map(|_| rng.range(0, hi).to_string()).collect(); v.push(Spec::new(kind).with("xs", xs.join(","))); }
     }
-    v
+    add_entry_points(v, rng, &["slopes", "peaks", "peaks_slopes"], 40, |rng: &mut Rng| { let l = rng.range(1, 4); (0..l).map(|_| rng.range(0, 2).to_string()).collect::<Vec<_>>().join(",") })
 }
 pub fn exec09(s: &Spec, stats: &mut Stats) -> Outcome {
     let toks = s.strs("xs"); let xs: Vec<f64> = toks.iter().map(|t| tok(t)).collect();
     stats.bump(format!("kind:{}", s.kind)); stats.bump(format!("len:{}", xs.len() / 10 * 10));
     let mut ys: Vec<usize> = vec![]; let mut panic = false;
     let k = match s.kind.as_str() {
-        "slopes" => { let mut f: slopes::Slopes<f64, usize> = slopes::Slopes::with_config(slopes::Config { outputs: [0, 1, 2] });
+        "slopes" => { let mut f: slopes::Slopes<f64, usize> = enter(slopes::Slopes::with_config(slopes::Config { outputs: [0, 1, 2] }), stats, |f, t| { f.filter(tok(t) + 5.0); });
             for x in &xs { match catch(|| f.filter(*x)) { Ok(y) => ys.push(y), Err(_) => { panic = true; break } } } 0 }
-        "peaks" => { let mut f: peaks::Peaks<f64, usize> = peaks::Peaks::with_config(peaks::Config { outputs: [0, 1, 2] });
+        "peaks" => { let mut f: peaks::Peaks<f64, usize> = enter(peaks::Peaks::with_config(peaks::Config { outputs: [0, 1, 2] }), stats, |f, t| { f.filter(tok(t) * 3.0 + 1.0); });
             for x in &xs { match catch(|| f.filter(*x)) { Ok(y) => ys.push(y), Err(_) => { panic = true; break } } } 1 }
-        _ => { let mut f: peaks::Peaks<slopes::Slope, usize> = peaks::Peaks::with_config(peaks::Config { outputs: [0, 1, 2] });
+        _ => { let mut f: peaks::Peaks<slopes::Slope, usize> = enter(peaks::Peaks::with_config(peaks::Config { outputs: [0, 1, 2] }), stats, |f, t| { f.filter(match t { "0" => slopes::Slope::Rising, "2" => slopes::Slope::Falling, _ => slopes::Slope::None }); });
             for x in &xs { let sl = match *x as i64 { 0 => slopes::Slope::Rising, 2 => slopes::Slope::Falling, _ => slopes::Slope::None };
                 match catch(|| f.filter(sl)) { Ok(y) => ys.push(y), Err(_) => { panic = true; break } } } 2 }
     };
